@@ -90,7 +90,8 @@ def run_measured(program, light=False):
 def impl(case) -> str:
     with warnings.catch_warnings():
         warnings.simplefilter("ignore")
-        gc.collect()
+        if case.get("n", 0) >= 1000:
+            gc.collect()           # (a full collection per small case would dominate the run time)
         gc.disable()
         try:
             return _impl(case)
@@ -372,8 +373,8 @@ def gen(rng, tier):
                 cases.append({"kind": "program", "shape": shape, "fail": fail, "n": n,
                               "program": chain_ops(shape, fail, n)})
             big = [100, 1000, 10000]
-            if tier != "quick" and (not fail or shape == "outer"):
-                big.append(100000)        # ~1 min each under the profiler
+            if tier != "quick":
+                big.append(100000)
             for n in big:
                 cases.append({"kind": "chain", "shape": shape, "fail": fail, "n": n})
     for style in ("gen", "coro"):
@@ -472,7 +473,7 @@ SPEC = Spec(
     case_timeout=120.0,
     rule="4 chain shapes (outer fired first, inner fired first, innermost pre-fired, innermost paused by the user) x "
          "{success, failure}: as kernel programs for 9 lengths <= 34 (quick) / 43 lengths <= 90 (thorough) with the "
-         "frame depth of every operation compared with the model, and with 100 ... 10 000 (thorough 100 000 for the success variants and outer/failure) Deferreds "
+         "frame depth of every operation compared with the model, and with 100 ... 10 000 (thorough 100 000) Deferreds "
          "against the 10-element baseline; inlineCallbacks generators and coroutines awaiting 30 ... 20 000 (100 000) "
          "Deferreds, all pre-fired, every 7th fired later, or only the first one unfired (re-entry after a real suspension), last "
          "one failing or not; inline programs (generator / coroutine, 0-9 awaits pre-fired with values or failures or "
